@@ -9,6 +9,7 @@ rule = ("for each of the 22 indicators: an original (slot 0) is fed a history, c
         "(all merges of two length-L sequences for short L, random long interleavings, with unrelated ops on slot 2 in between) and a "
         "fourth instance (slot 3) built with the same parameters is fed history+continuation sequentially; every case is additionally "
         "executed concurrently on 16 OS threads and compared with the sequential result; plus a purity scan of /repo/src. "
+        "in every third case the clone target already exists in another fill state, so that the harness goes through Clone::clone_from. "
         "Non-trivial: distinct case whose continuation has >= 2 inputs")
 assumptions = ["thread interleavings are exercised (16 threads on distinct instances), not modelled",
                "purity scan: no static mut / thread_local / unsafe / Cell / RefCell / Mutex / Atomic / Rc / lazy_static / extern in /repo/src"]
